@@ -36,7 +36,8 @@ pub struct Case {
     pub params: [u8; 6],
     /// 0 none; otherwise the first rule is REPLACED by a different one at the reload and a probe burst judges it:
     /// flow 1 -> Reject(k), 2 -> Throttling(1/s, no queue), 3 -> WarmUp(30); hotspot 1 -> QPS Reject(k), 2 -> Concurrency(k),
-    /// 3 -> override 0 for value "p"; breaker 1 -> ErrorCount(k)
+    /// 3 -> override 0 for value "p"; breaker 1 -> ErrorCount(k); every kind 4 -> "there and back": the threshold is
+    /// raised out of reach by one reload and the ORIGINAL rules are loaded again by the next, then the original rule is probed
     pub probe: u8,
     pub probe_k: u8,
 }
@@ -67,7 +68,7 @@ pub fn decode(u: &mut Bytes) -> Case {
         change: [0u8, 0, 0, 1, 2][u.choice(5)],
         // later additions come from the tail (committed replays keep their meaning; all-zero = the original fixed rules)
         params: [u.tail_u8(), u.tail_u8(), u.tail_u8(), u.tail_u8(), u.tail_u8(), u.tail_u8()],
-        probe: [0u8, 0, 1, 2, 3][u.tail_choice(5)],
+        probe: [0u8, 0, 1, 2, 3, 4, 4][u.tail_choice(7)],
         probe_k: 1 + u.tail_choice(3) as u8,
     }
 }
@@ -159,7 +160,11 @@ fn hot_rules(case: &Case, res: &str, change: Change) -> Vec<Arc<hotspot::Rule>> 
         _ => vec![hotspot::Rule { metric_type: hotspot::MetricType::Concurrency, threshold: pm(case, 0, &[2, 1, 3]), specific_items: items, ..base.clone() }],
     };
     match change {
-        Change::None | Change::ThresholdHuge => {}
+        Change::None => {}
+        Change::ThresholdHuge => {
+            v[0].threshold = 1_000_000;
+            v[0].specific_items.clear();
+        }
         Change::ThresholdZero => v[0].threshold = 0,
         Change::Probe(1, k) => v[0] = hotspot::Rule { metric_type: hotspot::MetricType::QPS, control_strategy: hotspot::ControlStrategy::Reject, threshold: k as u64, burst_count: 0, ..base },
         Change::Probe(2, k) => v[0] = hotspot::Rule { metric_type: hotspot::MetricType::Concurrency, threshold: k as u64, ..base },
@@ -217,6 +222,10 @@ fn ptrs(kind: u8, res: &String) -> Vec<usize> {
 }
 
 fn load(case: &Case, res: &String, other: &String, third: &String, reload: bool, change: Change) {
+    load_via(case, res, other, third, reload, change, case.via_resource_api)
+}
+
+fn load_via(case: &Case, res: &String, other: &String, third: &String, reload: bool, change: Change, via_resource_api: bool) {
     let kind = case.kind;
     // what the unrelated resource looks like in this call
     let others = if reload { case.others } else { 0 };
@@ -226,7 +235,7 @@ fn load(case: &Case, res: &String, other: &String, third: &String, reload: bool,
             if reload && case.shuffle {
                 mine.reverse();
             }
-            if reload && case.via_resource_api {
+            if reload && via_resource_api {
                 let _ = flow::load_rules_of_resource(res, mine);
                 return;
             }
@@ -247,7 +256,7 @@ fn load(case: &Case, res: &String, other: &String, third: &String, reload: bool,
             if reload && case.shuffle {
                 mine.reverse();
             }
-            if reload && case.via_resource_api {
+            if reload && via_resource_api {
                 let _ = hotspot::load_rules_of_resource(res, mine);
                 return;
             }
@@ -269,7 +278,7 @@ fn load(case: &Case, res: &String, other: &String, third: &String, reload: bool,
             if reload && case.shuffle {
                 mine.reverse();
             }
-            if reload && case.via_resource_api {
+            if reload && via_resource_api {
                 let _ = cb::load_rules_of_resource(res, mine);
                 return;
             }
@@ -421,6 +430,9 @@ fn run_probe(case: &Case) -> Result<&'static str, (String, String)> {
     for idx in order.drain(..) {
         open.exit(idx);
     }
+    if case.probe == 4 {
+        return there_and_back(case, &res, &other, &third);
+    }
     let k = case.probe_k as u32;
     let change = Change::Probe(case.probe, case.probe_k);
     // is the replacement really a different rule?
@@ -556,6 +568,131 @@ fn run_probe(case: &Case) -> Result<&'static str, (String, String)> {
     }
 }
 
+/// "There and back": one reload raises the first rule's threshold out of reach (a changed rule), the next one loads the
+/// ORIGINAL rules again (fresh ids). Both are changes and both must take effect; afterwards the original rule is probed
+/// with bounds that hold whatever state was carried over. The two reloads go through independently chosen entry points.
+fn there_and_back(case: &Case, res: &String, other: &String, third: &String) -> Result<&'static str, (String, String)> {
+    let api1 = case.params[4] >= 128;
+    let api2 = case.params[5] >= 128;
+    load_via(case, res, other, third, true, Change::ThresholdHuge, api1);
+    load_via(case, res, other, third, true, Change::None, api2);
+    clock::advance_ms(case.steps.get(case.reload_at).map(|s| s.dt).unwrap_or(0));
+    let apis = format!("first reload via {}, second via {}", if api1 { "load_rules_of_resource" } else { "load_rules" }, if api2 { "load_rules_of_resource" } else { "load_rules" });
+    let err = |what: String| Err(("changed-back-rule-not-applied".to_string(), format!("{} ({})", what, apis)));
+    match case.kind {
+        0 | 1 | 3 => {
+            let t = flow_rules(case, res, Change::None)[0].threshold;
+            let n = t.ceil() as u32 + 2;
+            let mut adm = 0u32;
+            for _ in 0..n {
+                if let Ok(e) = build(Req::new(res, 1)) {
+                    adm += 1;
+                    e.exit();
+                }
+            }
+            if adm as f64 > t {
+                return err(format!("threshold raised to 1e9 and then the original rule (threshold {}) loaded again, yet {} of {} single-token requests at one instant were admitted", t, adm, n));
+            }
+            Ok("there-and-back-flow")
+        }
+        2 => {
+            let r = flow_rules(case, res, Change::None)[0].clone();
+            let interval = if r.stat_interval_ms == 0 { 1000 } else { r.stat_interval_ms as u64 };
+            let gap_ns = (interval * 1_000_000) as f64 / r.threshold;
+            let t_before = clock::now_ns();
+            let mut adm = 0u64;
+            for _ in 0..3 {
+                if let Ok(e) = build(Req::new(res, 1)) {
+                    adm += 1;
+                    e.exit();
+                }
+            }
+            let elapsed = (clock::now_ns() - t_before) as f64;
+            if adm >= 2 && elapsed + 1_000_000.0 < (adm - 1) as f64 * gap_ns {
+                return err(format!("threshold raised to 1e9 and then the original throttling rule ({} per {} ms) loaded again, yet {} requests issued at one instant were admitted within {} ns", r.threshold, interval, adm, elapsed));
+            }
+            Ok("there-and-back-flow-throttling")
+        }
+        4 => {
+            let r = hot_rules(case, res, Change::None)[0].clone();
+            let cap = r.threshold + r.burst_count;
+            let mut adm = 0u64;
+            for _ in 0..cap + 2 {
+                let mut req = Req::new(res, 1);
+                req.args = Some(vec!["z-fresh".to_string()]);
+                if let Ok(e) = build(req) {
+                    adm += 1;
+                    e.exit();
+                }
+            }
+            if adm != cap {
+                return err(format!("threshold raised and then the original hotspot QPS rule (threshold {} + burst {}) loaded again, yet {} of {} requests of a never-seen value at one instant were admitted", r.threshold, r.burst_count, adm, cap + 2));
+            }
+            Ok("there-and-back-hotspot-reject")
+        }
+        5 => {
+            let r = hot_rules(case, res, Change::None)[0].clone();
+            let gap_ms = (r.duration_in_sec * 1000) as f64 / r.threshold as f64;
+            let t_before = clock::now_ms();
+            let mut adm = 0u64;
+            for _ in 0..3 {
+                let mut req = Req::new(res, 1);
+                req.args = Some(vec!["z-fresh".to_string()]);
+                if let Ok(e) = build(req) {
+                    adm += 1;
+                    e.exit();
+                }
+            }
+            let elapsed = (clock::now_ms() - t_before) as f64;
+            if adm >= 2 && elapsed + 2.0 < (adm - 1) as f64 * gap_ms {
+                return err(format!("threshold raised and then the original hotspot throttling rule ({} per {} s) loaded again, yet {} requests of a never-seen value issued at one instant were admitted within {} ms", r.threshold, r.duration_in_sec, adm, elapsed));
+            }
+            Ok("there-and-back-hotspot-throttling")
+        }
+        6 => {
+            let t = hot_rules(case, res, Change::None)[0].threshold;
+            let mut adm = 0u64;
+            let mut held = OpenEntries::new();
+            for _ in 0..t + 2 {
+                let mut req = Req::new(res, 1);
+                req.args = Some(vec!["z-fresh".to_string()]);
+                if let Ok(e) = build(req) {
+                    adm += 1;
+                    held.push(e);
+                }
+            }
+            drop(held);
+            if adm != t {
+                return err(format!("threshold raised and then the original hotspot concurrency rule (threshold {}) loaded again, yet {} of {} simultaneously open requests of a never-seen value were admitted", t, adm, t + 2));
+            }
+            Ok("there-and-back-hotspot-concurrency")
+        }
+        _ => {
+            // every failing request is slow and carries an error; with the original rule back in force the breaker opens
+            let mut failed = 0u32;
+            let mut rejected = false;
+            for _ in 0..40 {
+                match build(Req::new(res, 1)) {
+                    Ok(e) => {
+                        clock::advance_ms(101);
+                        e.set_err(sentinel_core::Error::msg("biz"));
+                        e.exit();
+                        failed += 1;
+                    }
+                    Err(_) => {
+                        rejected = true;
+                        break;
+                    }
+                }
+            }
+            if !rejected {
+                return err(format!("threshold raised to 1e9 and then the original breaker rule {:?} loaded again, yet {} slow and failed requests in a row never opened it", cb_rules(case, res, Change::None)[0], failed));
+            }
+            Ok("there-and-back-breaker")
+        }
+    }
+}
+
 impl Property for C11 {
     fn id(&self) -> &'static str {
         "C11"
@@ -567,7 +704,7 @@ impl Property for C11 {
         }
     }
     fn rule(&self) -> String {
-        "bytes -> scenario (flow reject on the global window / on a private 700 ms window, flow throttling, flow warm-up, hotspot QPS reject, hotspot QPS throttling, hotspot concurrency, circuit breaker), optionally a second rule on the same resource, a script of 4-33 steps (clock advance from a menu; request with batch/value, exit oldest open entry ok / with error), a reload position, reload through load_rules (with the unrelated resource kept / removed / changed / another added in the same call) or load_rules_of_resource, rules re-created with fresh ids and optionally reversed order; differential oracle: the observation sequence (admitted, block type, time slept, breaker states) of the run with the reload equals that of the run without it at the same virtual instants on fresh resources, and the controllers / breakers are the same objects (Arc::ptr_eq) before and after; changed rule: threshold -> 0 => the next request is rejected, threshold -> 1e9 => admitted; replaced rule (3 cases in 5): the first rule is replaced by a different one (flow -> Reject(k) / Throttling 1 per s / WarmUp 30, hotspot -> QPS Reject(k) / Concurrency(k) / override 0 for a value, breaker -> ErrorCount(k)) and a probe burst right after the reload must show the new rule in force, with bounds that hold whether or not statistics are carried over; rule parameters (thresholds, intervals, bursts, queueing times, override tables, breaker strategies) come from menus; non-trivial = the reload happens after at least one admission and the remainder of the run contains a rejection, a wait or a non-closed breaker state; distinct = distinct decoded cases".into()
+        "bytes -> scenario (flow reject on the global window / on a private 700 ms window, flow throttling, flow warm-up, hotspot QPS reject, hotspot QPS throttling, hotspot concurrency, circuit breaker), optionally a second rule on the same resource, a script of 4-33 steps (clock advance from a menu; request with batch/value, exit oldest open entry ok / with error), a reload position, reload through load_rules (with the unrelated resource kept / removed / changed / another added in the same call) or load_rules_of_resource, rules re-created with fresh ids and optionally reversed order; differential oracle: the observation sequence (admitted, block type, time slept, breaker states) of the run with the reload equals that of the run without it at the same virtual instants on fresh resources, and the controllers / breakers are the same objects (Arc::ptr_eq) before and after; changed rule: threshold -> 0 => the next request is rejected, threshold -> 1e9 => admitted; there and back (2 cases in 7): one reload raises the threshold out of reach, the next loads the original rules again (independently chosen entry points), then the original rule is probed; replaced rule (3 cases in 7): the first rule is replaced by a different one (flow -> Reject(k) / Throttling 1 per s / WarmUp 30, hotspot -> QPS Reject(k) / Concurrency(k) / override 0 for a value, breaker -> ErrorCount(k)) and a probe burst right after the reload must show the new rule in force, with bounds that hold whether or not statistics are carried over; rule parameters (thresholds, intervals, bursts, queueing times, override tables, breaker strategies) come from menus; non-trivial = the reload happens after at least one admission and the remainder of the run contains a rejection, a wait or a non-closed breaker state; distinct = distinct decoded cases".into()
     }
     fn assumptions(&self) -> Vec<String> {
         vec![
